@@ -607,6 +607,15 @@ func (in *Interp) execFor(s *For, sc *scope) (Value, ctl) {
 			} else if i >= len(keys) {
 				break
 			}
+			if m, isMap := itv.(*Map); isMap {
+				// what a loop over a map yields for a key whose value was replaced (or that was deleted) by an
+				// earlier pass of the same loop is not pinned by the statement: undecided
+				if k, ok := keys[i].(string); ok {
+					if cur, present := m.M[k]; !present || !Equals(cur, vals[i]) {
+						in.tag("undecided")
+					}
+				}
+			}
 			in.step()
 			switch s.Kind {
 			case "range1":
